@@ -21,6 +21,7 @@ var (
 	EventFn      func(kind string, a, b uint64)
 	EventKVFn    func(kind string, key, val []byte, a, b uint64)
 	FaultFn      func(site string) error
+	EntryFn      func(kind string, key, val []byte, version uint64, meta, userMeta byte, expiresAt uint64)
 	SkipHeightFn func() (int, bool)
 	NowFn        func() (time.Time, bool)
 )
@@ -84,6 +85,14 @@ func Event(kind string, a, b uint64) {
 func EventKV(kind string, key, val []byte, a, b uint64) {
 	if f := EventKVFn; f != nil {
 		f(kind, key, val, a, b)
+	}
+}
+
+// Entry reports one entry of a commit (or of another write path) with all its
+// fields, so that the harness' reference model sees exactly what is written.
+func Entry(kind string, key, val []byte, version uint64, meta, userMeta byte, expiresAt uint64) {
+	if f := EntryFn; f != nil {
+		f(kind, key, val, version, meta, userMeta, expiresAt)
 	}
 }
 
